@@ -93,8 +93,9 @@ def gen_rg(rng, maxnd=2, nmax=10):
     return shape, d
 
 
-def gen_config(ck, rng):
-    fam = pick(rng, ["np1"] * 4 + ["np2"] * 4 + ["matern"] * 2 + ["matern_np"])
+def gen_config(ck, rng, i=0):
+    fams = ["np1"] * 4 + ["np2"] * 4 + ["matern"] * 2 + ["matern_np"]
+    fam = fams[(i * 3 + int(ck.rng(777).integers(0, len(fams)))) % len(fams)]      # round-robin
     spaces = []
     if fam == "np1":
         if rng.integers(0, 5) == 0:
@@ -202,7 +203,7 @@ def rel(a, b):
 def case(ck, i):
     ift, jft, jnp, jax = (ck.state[k] for k in ("ift", "jft", "jnp", "jax"))
     rng = ck.rng()
-    cfg = gen_config(ck, rng)
+    cfg = gen_config(ck, rng, i)
     fam = cfg["fam"]
     jft.config.update("hartley_convention", cfg["conv"])
     seen = set()
